@@ -25,6 +25,12 @@ CLAIMED['C15'] = dict(
         'Correspondence: exhaustive sorted trains on a small grid x labelings x id orders x (bin, half) x symmetrize, random long trains, against real correlograms()/firing_rate().',
    note='Float-to-sample conversion and the final float multiplication of firing_rate are performed by the real code and only replicated (not modelled) by the harness on inputs it verifies to be exact.',
    tech='Lean 4 theorems (loop invariant, reindexing of sums) over a hand-written model + differential correspondence against /repo', ref='§5 C15')
+CLAIMED['C07'] = dict(
+   text='Theorems (any length, any id alphabet, every signed/unsigned width): grouping by stable argsort + first-difference boundaries computed in the dtype equals {cluster: increasing member spikes (or supplied ids)} in increasing id order, exactly the clusters present; groups partition the spikes; sorted differences never wrap; spikes-in-clusters is the sorted union of the groups; '
+        '_unique, _index_of (unsorted lookups), _flatten_per_cluster, grouped_mean (sum, count per cluster) and the per-cluster template histogram equal their set-theoretic definitions. '
+        'Correspondence: exhaustive assignment vectors over a gapped alphabet x int32/int64/uint16/uint32 x spike-id vectors, unsorted/absent requests, random long vectors, TemplateModel queries on generated datasets.',
+   note='grouped_mean: integer-valued data (exact sums); the single float division is compared with the correctly rounded exact quotient.',
+   tech='Lean 4 theorems (stable-sort block decomposition, fold invariants) over a hand-written model + differential correspondence against /repo', ref='§5 C07')
 REASONS = {}
 
 checks = []
